@@ -116,6 +116,8 @@ def run_scenario(case, layer):
         node = W.stack('N%d' % i, **kw)
         if rxp:
             holder.append(node)
+            if random.Random(case['seed'] ^ (0x51 + i)).random() < 0.5:
+                node.send_time = (0.0, 0.002)        # a slow interface: each send call blocks its (controlled) caller up to 2 ms
         if rng.random() < 0.2:
             node.ecu.add_timer(rng.choice([0.003, 0.03, 0.9, 2.0]), lambda c: True)       # unrelated periodic application timer
         W.listen_ecu(node, ('ecu', i))
@@ -340,7 +342,7 @@ def run_scenario(case, layer):
     multi = sum(1 for m in msgs if m['acc'] is True and len(m['data']) > (60 if fd else 8))
     obs = dict(messages_accepted=n_acc, messages_refused=n_ref, multipacket_accepted=multi, deliveries_compared=compared,
                frames=len(W.bus.frames), eom_notifications=eom_seen[0], tables_observed=tables, sessions_reassembled=sn_ok,
-               zero_latency_cases=1 if zero else 0, rx_thread_cases=1 if rxp else 0, rx_handler_holds=rx_holds[0], eager_switches=sim.eager_switches, chained_submissions=sum(1 for m in msgs if m.get('chain')), jobthread_max_timecalls=max([s.job_state.max_time_calls for s in W.stacks] + [0]))
+               zero_latency_cases=1 if zero else 0, rx_thread_cases=1 if rxp else 0, slow_sends=sum(s.slow_sends for s in W.stacks), rx_handler_holds=rx_holds[0], eager_switches=sim.eager_switches, chained_submissions=sum(1 for m in msgs if m.get('chain')), jobthread_max_timecalls=max([s.job_state.max_time_calls for s in W.stacks] + [0]))
     sample = dict(case=dict(seed=case['seed'], stacks=n, layouts=layouts, endpoints=[(e['stack'], e['kind'], e['addr']) for e in eps], windows=windows,
                             dt_intervals=dt_ivs, zero=zero, lat=list(lat)),
                   messages=[(m['mode'], len(m['data']), 'ep%d' % m['src'], m['dst'], round(m['t'], 4) if m['t'] is not None else m.get('chain'), m['acc']) for m in msgs[:14]],
